@@ -31,7 +31,7 @@ use std::sync::Arc;
 const KEYS: [&str; 3] = ["a", "b", "c"];
 
 #[derive(Clone, Copy, PartialEq, Debug)]
-enum Form { Join, Exists }
+enum Form { Join, Exists, Count }
 
 /// residual ON predicate over (x0.v0, x1.v1)
 #[derive(Clone, Copy, PartialEq, Debug)]
@@ -181,17 +181,30 @@ fn build_query(cat: &Catalog, sh: &Shape, all_cols: bool) -> QueryExpr {
         return QueryExpr::of(Body::Select(Box::new(Select { from: Some(from), where_: None, group: None, having: None, proj, distinct: false })));
     }
     let from = Rel::Join { jt: sh.jt, l: Box::new(t0), r: Box::new(t1), lw, rw, on };
+    if sh.form == Form::Count {
+        let mut aggs = vec![AggCall { f: AggFn::CountStar, arg: None, distinct: false }];
+        for (side, i) in [(0usize, 1usize), (1, 1), (0, 4), (1, 4), (0, 3), (1, 3)] {
+            aggs.push(AggCall { f: AggFn::Count, arg: Some(colref(side, i, &cat.tables[side].cols[i].name, lw, false)), distinct: false });
+        }
+        let proj: Vec<(Expr, String)> = aggs.iter().enumerate().map(|(n, a)| (Expr::Col { i: n, sql: a.sql() }, format!("o{}", n))).collect();
+        return QueryExpr::of(Body::Select(Box::new(Select { from: Some(from), where_: None, group: Some(Group { keys: vec![], aggs, sets: None }), having: None, proj, distinct: false })));
+    }
     QueryExpr::of(Body::Select(Box::new(Select { from: Some(from), where_: None, group: None, having: None, proj, distinct: false })))
 }
 
 fn gen_shape(r: &mut Rng, n: usize, o: &Opts) -> Shape {
     let jts = [JoinType::Inner, JoinType::Left, JoinType::Right, JoinType::Full, JoinType::Semi, JoinType::Anti, JoinType::Cross];
     let jt = match o.get("jt") { Some(s) => jt_parse(s), None => if n % 9 == 8 { *r.pick(&jts) } else { jts[n % 9 % 7] } };
-    let form = if matches!(jt, JoinType::Semi | JoinType::Anti) && r.chance(1, 3) && o.get_usize("exists", 1) == 1 { Form::Exists } else { Form::Join };
+    let form = if matches!(jt, JoinType::Semi | JoinType::Anti) && r.chance(1, 3) && o.get_usize("exists", 1) == 1 { Form::Exists }
+        // `SELECT COUNT(*), COUNT(col)… FROM <join>`: the NULLs a join emits (and passes through) must be real NULLs downstream
+        else if !matches!(jt, JoinType::Semi | JoinType::Anti) && o.get_usize("count", 1) >= 1 && (o.get_usize("count", 1) == 2 || r.chance(1, 8)) { Form::Count }
+        else { Form::Join };
     let nkeys = if jt == JoinType::Cross { 0 } else { *r.pick(&[1usize, 1, 1, 2, 2, 3]) };
     let resid = if jt == JoinType::Cross { Resid::None } else { match o.get("resid") { Some(s) => Resid::parse(s), None => *r.pick(&[Resid::None, Resid::None, Resid::None, Resid::Lt, Resid::Ne, Resid::Never, Resid::LeftOnly, Resid::RightOnly, Resid::Le]) } };
-    // EXISTS forms: equality correlation plus, optionally, a two-sided residual (a one-sided one is an ordinary subquery filter)
-    let resid = if form == Form::Exists && matches!(resid, Resid::LeftOnly | Resid::RightOnly) { Resid::Ne } else { resid };
+    // EXISTS forms: equality correlation plus, optionally, a two-sided column comparison (a one-sided residual is an ordinary
+    // subquery filter; a correlated ARITHMETIC predicate is left inside the subquery by the decorrelation rule and fails
+    // with "Column not found" — C23's territory, not the join operator's)
+    let resid = if form == Form::Exists && matches!(resid, Resid::LeftOnly | Resid::RightOnly | Resid::Never) { Resid::Ne } else { resid };
     // `mixed=0` never, `mixed=2` always, default 1 case in 40
     let mixed = jt != JoinType::Cross && match o.get_usize("mixed", 1) { 0 => false, 2 => true, _ => r.chance(1, 40) };
     let nested = if form == Form::Join && jt != JoinType::Cross && !mixed && o.get_usize("nested", 1) >= 1 && (o.get_usize("nested", 1) == 2 || r.chance(1, 8)) {
@@ -219,7 +232,7 @@ fn size_tags(cat: &Catalog) -> Vec<String> {
 }
 
 fn common_tags(sh: &Shape, desc: &str) -> Vec<String> {
-    let mut tags = vec![format!("jt:{}", sh.jt.json()), format!("form:{}", if sh.form == Form::Exists { "exists" } else if sh.nested.is_some() { "nested" } else { "join" }), format!("nkeys:{}", sh.nkeys), format!("resid:{}", sh.resid.name())];
+    let mut tags = vec![format!("jt:{}", sh.jt.json()), format!("form:{}", if sh.form == Form::Exists { "exists" } else if sh.form == Form::Count { "count" } else if sh.nested.is_some() { "nested" } else { "join" }), format!("nkeys:{}", sh.nkeys), format!("resid:{}", sh.resid.name())];
     if sh.mixed { tags.push("f:mixed_width".into()); }
     for w in desc.split(' ') { if !w.is_empty() { tags.push(w.to_string()); } }
     tags
@@ -250,7 +263,7 @@ fn gen_sql_case(r: &mut Rng, n: usize, o: &Opts) -> (Value, Value) {
     for opn in ["HashJoin", "SpillableHashJoin", "NestedLoop", "CrossJoin", "StreamingParquetScan", "ParquetScan", "Filter", "DelimJoin"] { if ops.iter().any(|x| x == opn) { tags.push(format!("op:{}", opn)); } }
     let mut case = make_case("C22", &cat, &q, &tags, false, &[cfg], false);
     case["strict_err"] = json!(true);
-    case["c22"] = json!({"kind": "sql", "jt": sh.jt.json(), "form": if sh.form == Form::Exists { "exists" } else { "join" }, "nkeys": sh.nkeys, "resid": sh.resid.name(), "mixed": sh.mixed, "ops": ops});
+    case["c22"] = json!({"kind": "sql", "jt": sh.jt.json(), "form": if sh.form == Form::Exists { "exists" } else if sh.form == Form::Count { "count" } else { "join" }, "nkeys": sh.nkeys, "resid": sh.resid.name(), "mixed": sh.mixed, "ops": ops});
     let imp = run_any(&case);
     (case, imp)
 }
